@@ -13,6 +13,10 @@ Decided clauses:
   R5  keys that compare equal hash equal: in `impl Hash for JsValue` (the key type of Map / Set, which are hashed with a
       per-table random seed) the Integer32 arm and the Float64 arm feed the hasher through the same Hash impl — the engine
       never normalises floats back to ints, so 7 and 7.0 meet as SameValueZero-equal keys with different tags
+  R6  shared counters only count up: every write to a thread-local / static counter cell of boa_engine (Cell<integer>,
+      atomics: ids, [[AsyncEvaluationOrder]]) stores the previous value plus a constant or is a fetch_add — a reset makes
+      the values handed out depend on what else is pending on the thread, and an ordering key that is no longer unique
+      lets the address order of a hash set through a sort
 Not decided: byte-identical traces; absence of other address dependence.
 """
 import re
@@ -292,10 +296,65 @@ def r5(db, rep):
            f"program gives different traces in different processes and in two fresh contexts of one process", loc=f.span)
 
 
+def r6(db, rep):
+    from facts import provenance
+    rep.rule("R6", "thread-local / static counter cells are only incremented: each Cell::set / replace / store on them writes "
+                   "old + constant (or the call is fetch_add)")
+    counters = set()
+    for st in db.statics:
+        ty = st.get("ty", "")
+        if st.get("crate") not in (None, "boa_engine") and not st["id"].startswith("boa_engine::"):
+            continue
+        if not st["id"].startswith("boa_engine::"):
+            continue
+        if re.search(r"Cell<(u|i)(8|16|32|64|128|size)>", ty) or re.search(r"Atomic(U|I)(8|16|32|64|size)", ty):
+            counters.add(st["id"].split("::{constant")[0])
+    rep.floor("R6", "counter cells in statics / thread-locals of boa_engine", len(counters), 3)
+    mods = {c.rsplit("::", 1)[0] for c in counters}
+    mods |= {m.rsplit("::", 1)[0] for m in mods if m.count("::") > 2}
+    n = 0
+    for f in db.fns.values():
+        if not f.id.startswith("boa_engine::") or "::tests" in f.id:
+            continue
+        if not any(f.id.startswith(m) for m in mods):
+            continue
+        for b, t in f.calls():
+            c = (t.get("rf") or callee(t) or "")
+            m = c.split("::")[-1]
+            if not (("cell::Cell" in c and m in ("set", "replace")) or ("Atomic" in c and m in ("store", "swap"))):
+                continue
+            if len(t["args"]) < 2 or not re.search(r"(u|i)(8|16|32|64|128|size)", t.get("g") or c):
+                continue
+            rl = op_local(t["args"][0])
+            rs = roots(f, rl) if rl is not None else []
+            shared = any((r[0] == "arg" and "{closure" in f.id) or (r[0] == "const" and (r[1].get("def") or "").split("::{constant")[0] in counters)
+                         for r in rs) and not any(r[0] == "place" and any(isinstance(e, str) and e.startswith("f:") for e in r[1]) for r in rs)
+            if not shared:
+                continue
+            n += 1
+            vl = op_local(t["args"][1])
+            ok = False
+            for q in (provenance(f, vl, extra=("checked_add", "wrapping_add", "saturating_add", "branch", "unwrap", "expect",
+                                                 "unwrap_or", "ok_or", "ok_or_else")) if vl is not None else ()):
+                for bb, i, rr in f.defs().get(q, []):
+                    if i == "t" and cn(rr).split("::")[-1] in ("checked_add", "wrapping_add", "saturating_add"):
+                        ok = True
+                    if i != "t" and isinstance(rr, dict) and rr.get("k") in ("bin", "checked") and str(rr.get("op", "")).startswith("Add"):
+                        ok = True
+            rep.ob("R6", f"{cname(f.id)}:{m}:counter-only-increments", ok,
+                   f"{cname(f.id)} writes a shared counter cell with a value that is not the old value plus a constant "
+                   f"({f.loc(b)}): after a reset of the module async-evaluation count, modules that are still pending and new "
+                   f"ones get the same [[AsyncEvaluationOrder]]; the sort that hides the address order of the FxHashSet<Module> "
+                   f"of ready parents then ties, and the parents run in heap-address order (differs between processes)",
+                   loc=f.loc(b))
+    rep.floor("R6", "writes to shared counter cells", n, 2)
+
+
 def run(db, rep, tier):
     r1(db, rep)
     r2(db, rep)
     r3(db, rep)
     r4(db, rep)
     r5(db, rep)
+    r6(db, rep)
     rep.assumptions += ["FxHasher is a deterministic function of the key bytes; Sym/u32/JsString keys hash by value"]
